@@ -92,9 +92,44 @@ GOROUTINE_POINTS = [
     ("discovery goroutine of discoverLoop: inside handleDiscovery", r"^discover\.discoverLoop\.func1 \| discover\.handleDiscovery \| ", None),
     ("advertising goroutine: timer", r"^discover\.Advertise\.func1 \| discover\.Advertise\.func1 \| select\{case <-t\.C; case <-advertisingCtx\.Done\(\)\}$", None),
 ]
+CALLBACK_SITES = ["Up", "Down", "Join", "Leave", "Graft", "Prune", "Recv", "Send", "Drop", "Deliver", "Duplicate", "Reject",
+                  "Undeliverable", "inspector", "filter", "partial", "ready"]
+LOOP = r"^PubSub\.processLoop \| "
+GOROUTINE_POINTS += [
+    # cancellation while the loop is inside a callback (family cbcancel); what the loop still hands over afterwards:
+    ("loop cancelled in RawTracer.OnNewOutboundStream (then: s.FirstMessage <- hello, writer gone)", LOOP + r"pubsubTracer\.OnNewOutboundStream \| ", ["cbcancel"]),
+    ("loop cancelled in RawTracer.OnClosedOutboundStream", LOOP + r"pubsubTracer\.OnClosedOutboundStream \| ", ["cbcancel"]),
+    ("loop cancelled in RawTracer.Join (then: req.resp <- sub, caller waiting)", LOOP + r"pubsubTracer\.Join \| ", ["cbcancel"]),
+    ("loop cancelled in RawTracer.Leave", LOOP + r"pubsubTracer\.Leave \| ", ["cbcancel"]),
+    ("loop cancelled in RawTracer.Graft", LOOP + r"pubsubTracer\.Graft \| ", ["cbcancel"]),
+    ("loop cancelled in RawTracer.Prune", LOOP + r"pubsubTracer\.Prune \| ", ["cbcancel"]),
+    ("loop cancelled in RawTracer.RecvRPC", LOOP + r"pubsubTracer\.RecvRPC \| ", ["cbcancel"]),
+    ("loop cancelled in RawTracer.SendRPC (announce; then req.resp <- sub)", LOOP + r"pubsubTracer\.SendRPC \| ", ["cbcancel"]),
+    ("loop cancelled in RawTracer.DropRPC (announce to a full queue; then go announceRetry, req.resp <- sub)", LOOP + r"pubsubTracer\.DropRPC \| ", ["cbcancel"]),
+    ("loop cancelled in RawTracer.DeliverMessage (then notifySubs, router publish)", LOOP + r"pubsubTracer\.DeliverMessage \| ", ["cbcancel"]),
+    ("loop cancelled in RawTracer.DuplicateMessage", LOOP + r"pubsubTracer\.DuplicateMessage \| ", ["cbcancel"]),
+    ("loop cancelled in RawTracer.RejectMessage", LOOP + r"pubsubTracer\.RejectMessage \| ", ["cbcancel"]),
+    ("loop cancelled in RawTracer.UndeliverableMessage (notifySubs)", LOOP + r"pubsubTracer\.UndeliverableMessage \| ", ["cbcancel"]),
+    ("loop cancelled in the application's RPC inspector", LOOP + r"PubSub\.handleIncomingRPC \| .*appSpecificRpcInspector\(", ["cbcancel"]),
+    ("loop cancelled in a subscription's message filter (notifySubs)", LOOP + r"PubSub\.notifySubs \| .*f\.filter\(msg\)", ["cbcancel"]),
+    ("loop cancelled in the PublishPartial actions function (then resp <- , caller gone)", LOOP + r"partialmessages\.PartialMessagesExtension \| ", ["cbcancel"]),
+    ("loop cancelled in a WithReadiness function (then res <- done, caller waiting)", LOOP + r"Topic\.validate\.func\d+ \| .*pub\.ready\(", ["cbcancel"]),
+    # API calls in flight inside discover.Bootstrap (family bootstrap) and the readiness loop
+    ("Publish WithReadiness + discovery: Bootstrap's ready check at its eval hand-off (loop parked)",
+     r"^\(caller \| discover\.Bootstrap \| select\{case d\.p\.eval <- func\(\); case <-d\.p\.ctx\.Done\(\); case <-ctx\.Done\(\)\}$", ["bootstrap"]),
+    ("Publish WithReadiness + discovery: Bootstrap waiting for the discovery round it requested (FindPeers running)",
+     r"^\(caller \| discover\.Bootstrap \| select\{case <-disc\.done; case <-d\.p\.ctx\.Done\(\); case <-ctx\.Done\(\)\}$", ["bootstrap"]),
+    ("Publish WithReadiness + discovery: Bootstrap in its 100 ms pause",
+     r"^\(caller \| discover\.Bootstrap \| select\{case <-t\.C; case <-d\.p\.ctx\.Done\(\); case <-ctx\.Done\(\)\}$", ["bootstrap"]),
+    ("Publish WithReadiness without discovery: the readiness loop (eval hand-off, reply or 200 ms ticker)",
+     r"^\(caller \| Topic\.validate \| (select\{case t\.p\.eval <- func\(\); case <-t\.p\.ctx\.Done\(\); case <-ctx\.Done\(\)\}|select\{case <-ticker\.C; case <-ctx\.Done\(\)\}|if <-res \{)$", None),
+]
 # goroutines / blocking points that no scenario reaches, and why (reported in the evidence):
 UNREACHED_POINTS = {
-    "processLoop: s.FirstMessage <- helloPacket": "fresh channel of capacity 1, written once: never blocks",
+    "processLoop: s.FirstMessage <- helloPacket": "never blocks in the code as it is (fresh channel of capacity 1, written once); the CANCELLATION POINT before it is an obligation (family cbcancel, site Up: the writer is gone when the loop sends the hello)",
+    "discover.Bootstrap at its send on discoverQ": "blocks only with 32 requests pending and a live discoverLoop, which drains them at once; after the cancellation the call leaves at the eval hand-off before it",
+    "loop cancelled inside AppSpecificScore / score and gater callbacks": "they run with the scorer's mutex held: a parked goroutine holding a library mutex hangs synctest",
+    "loop cancelled inside RawTracer.ThrottlePeer, the subscription filter, PeerFilter, msg id function, RPCScheduler, TestExtension callback": "not forced; no hand-off of the loop follows them that the forced sites do not already precede",
     "processLoop: reply sends (treq.resp, req.resp, preq.resp)": "buffered (1), or unbuffered with the caller already in its receive (ListPeers): never block",
     "processLoop: requestDiscovery's send on discoverQ": "blocks only with 32 requests pending and a live discoverLoop, which drains them at once; not forced",
     "discovery goroutine: d.done <- topic": "discoverLoop is always receptive before the cancellation; the point is only reached AFTER Cancel (then the leftover inventory judges it: seeded bare send is caught)",
@@ -283,6 +318,17 @@ def plan(ctx, shapes, budget):
         fixed_scn(router="gossipsub", fam=fam, disc=True, calls=[], valctx=True)
         fixed_scn(router="floodsub", fam=fam, disc=True, calls=[], valctx=True)
     fixed_scn(router="gossipsub", fam="direct", calls=[], valctx=True)
+    # cancellation INSIDE every callback the library runs on the event loop; every other goroutine runs to
+    # completion before the loop is released, so each hand-off after the callback meets a partner that is gone
+    for r in ROUTERS:
+        for site in CALLBACK_SITES:
+            if r == "gossipsub" or site not in ("Graft", "Prune", "partial"):
+                fixed_scn(router=r, fam="cbcancel", site=site, calls=[], valctx=True)
+    # Publish(WithReadiness) with discovery configured, never ready, caller context without deadline: in flight
+    # at each blocking point of discover.Bootstrap at the instant of the cancellation
+    for r in ROUTERS:
+        for site in ("eval", "round", "timer"):
+            fixed_scn(router=r, fam="bootstrap", site=site, disc=True, calls=[], valctx=True)
     return scns, need
 
 
@@ -363,7 +409,7 @@ def run(ctx):
             dict(cfg="MCLifecycleRetry"),
             dict(cfg="MCLifecycleRetryBare", ok=False, prop="P_C14_Exit_POR"),      # announceRetry without its ctx arm
             dict(cfg="MCLifecycleDirect"),
-            dict(cfg="MCLifecycleDirectBare", ok=False, prop="P_C14_Exit_POR")]     # as found (D27): bare sends on gs.connect
+            dict(cfg="MCLifecycleDirectBare", ok=False, prop="P_C14_Exit_POR")]     # as found (D29): bare sends on gs.connect
     if ctx.thorough:
         jobs = [dict(cfg="MCLifecycle3", workers=2, timeout=2400, allow_timeout=True)] + jobs + [
             dict(cfg="MCLifecycleAux", timeout=900), dict(cfg="MCLifecycleDisc2"),
@@ -538,7 +584,8 @@ def replay_and_judge(ctx, join_mc, mcs, mc_counts):
         pts_hit[name] = hit
         if not hit:
             pts_missing.append(name)
-    unknown_pts = sorted(p for pts in pts_by_fam.values() for p in pts if not any(re.search(rx, p) for _, rx, _ in GOROUTINE_POINTS))
+    unknown_pts = sorted(p for pts in pts_by_fam.values() for p in pts
+                         if not p.startswith("(caller") and not any(re.search(rx, p) for _, rx, _ in GOROUTINE_POINTS))
     if unknown_pts:
         ctx.notes.append("library goroutines seen at the cancellation at %d blocking point(s) outside the obligation table, e.g. %s" % (len(set(unknown_pts)), sorted(set(unknown_pts))[:3]))
     if pts_missing and not new_viol:
